@@ -545,6 +545,28 @@ def rule_r9(rep, program: Program):
     r.inst({"slice weight": norm(v)})
     if not ok:
         r.violate(PROP, f"{f.qualname}:{norm(v)[:50]}", "the slice indicator is not [log u <= -h]", node=v, file=f.file)
+    # the indicator is *added* (tree weights are sums over states): it must be a number, not a
+    # truth value - log_u is a numpy float, so a bare comparison is numpy.bool_, whose + is logical or
+    def additive(e):
+        if isinstance(e, (ast.Compare, ast.BoolOp)) or (isinstance(e, ast.UnaryOp) and isinstance(e.op, ast.Not)):
+            return False
+        if isinstance(e, ast.BinOp) and isinstance(e.op, (ast.Mult, ast.Add, ast.Sub)):
+            sides = [e.left, e.right]
+            return any(isinstance(x, ast.Constant) and isinstance(x.value, (int, float)) and not isinstance(x.value, bool) for x in sides) or all(additive(x) for x in sides)
+        if isinstance(e, ast.Call) and norm(e.func) in ("int", "float", "np.where", "np.int64", "np.float64", "LogRepFloat"):
+            return True
+        if isinstance(e, ast.Call) and isinstance(e.func, ast.Attribute) and e.func.attr == "astype":
+            return True
+        if isinstance(e, ast.IfExp):
+            return additive(e.body) and additive(e.orelse)
+        if isinstance(e, ast.Constant):
+            return isinstance(e.value, (int, float)) and not isinstance(e.value, bool)
+        raise AnalysisError(f"{f.qualname}: slice weight of an unrecognised form {norm(e)[:50]}")
+
+    add_ok = additive(v)
+    r.inst({"slice weight is a number (summable)": add_ok})
+    if ok and not add_ok:
+        r.violate(PROP, f"{f.qualname}:boolean-weight:{norm(v)[:40]}", "the slice weight is returned as a truth value; log_u is a numpy float so this is numpy.bool_, and _merge_subtrees adds tree weights with `+`, which for numpy booleans is logical or: a tree's weight becomes 'any state in the slice' instead of the number of them, so the new-subtree acceptance ratio and the state selection are no longer uniform over the slice", node=v, file=f.file)
     f = sk.methods["_init_aux_vars"]
     lu = [n for n in ast.walk(f.node) if isinstance(n, ast.Assign) and norm(n.targets[0]) == "aux_vars['log_u']"]
     okl = False
@@ -593,6 +615,10 @@ def rule_r11(rep, program: Program):
     sp, hp, ap = f.params[1], f.params[2], f.params[3]
     want = {"negative": sp, "positive": sp, "weight": f"self._weight_function({hp}, {ap})", "depth": "0"}
     r.inst({"_new_leave": kw})
+    # NaN-sanitised forms of the energy denote the same weight (exp(-nan) is treated as exp(-inf) = 0 either way)
+    san = (f"np.inf if np.isnan({hp}) else {hp}", f"{hp} if not np.isnan({hp}) else np.inf", f"np.nan_to_num({hp}, nan=np.inf)")
+    if kw.get("weight") in {f"self._weight_function({x}, {ap})" for x in san}:
+        kw["weight"] = want["weight"]
     for a, w in want.items():
         if kw.get(a) != w:
             r.violate(PROP, f"_new_leave:{a}={kw.get(a)}", f"a leaf's `{a}` is `{kw.get(a)}` instead of `{w}`", node=call, file=f.file)
